@@ -125,10 +125,10 @@ def audit_gcc(ctx, cases, limit):
 
 def run(ctx):
     quick = ctx.quick
-    ctx.cov["rule"] = ("TLC (Loc.tla) enumerates every layout program of <= N items (N = 2 quick, 3 thorough) over 24 item kinds (declaration; splice between / "
+    ctx.cov["rule"] = ("TLC (Loc.tla) enumerates every layout program of <= N items (N = 2 quick, 3 thorough) over 28 item kinds (declaration; splice between / "
                        "inside tokens, double splice, splice first on a line; block comment over 2 / 3 lines; // comment, // comment continued by a splice; "
                        "1 / 2 blank lines; #pragma; null directive; ID( over 3 lines, ID newline (; DROP(..\\newline); #line 1 / 7 / 2147483647 / 010; "
-                       "#line 7 \"f.c\"; # 7 \"g.h\" 1 3; # 2147483647 \"g.h\" 1 3; # 1 \"g.h\") each alone and followed by each of 8 violation items, plus random "
+                       "#line 7 \"f.c\" / \"f\" / \"f.c.h\" / \"<std\" and #line 7 \"\" (names that are prefixes / extensions of one another and of the input name); # 7 \"g.h\" 1 3; # 2147483647 \"g.h\" 1 3; # 1 \"g.h\") each alone and followed by each of 9 violation items, plus random "
                        "programs of 4..7 items; every program is run: -E token dump (all tokens' file:line) or compile (stderr prefix). non-trivial = at least one item")
     hooks = lexlib.private_build(ctx, "hooks")
     plain = lexlib.private_build(ctx, "plain")
